@@ -459,3 +459,102 @@ def frame_classes(cases):
             k = classify(f[2])
             cl[k] = cl.get(k, 0) + 1
     return cl
+
+
+# ------------------------------------------------------------------------------------------ systematic case families
+def simple_unit(uid=1, m=3, c=5):
+    return (uid, m, c, (), (), (), (), (), ())
+
+
+def boundary_cases(link):
+    """every boundary quantity for every function code that carries one, one request per session,
+    start chosen so that only the quantity decides"""
+    out = []
+    for fc in (1, 2, 3, 4, 15, 16):
+        for q in QTY:
+            if fc <= 4:
+                pdu = bytes([fc] + be(16) + be(q))
+            else:
+                need = (q + 7) // 8 if fc == 15 else 2 * q
+                ln = min(need, 247)
+                pdu = bytes([fc] + be(16) + be(q) + [ln] + [(7 * i + q) & 255 for i in range(ln)])
+            out.append((link, (simple_unit(),), None, ((7 if link == 'tcp' else None, 1, pdu),)))
+    return out
+
+
+def length_cases(r):
+    """TCP: every PDU length 0..253, once with a known and once with an unknown function code"""
+    out = []
+    for ln in range(0, 254):
+        frames = []
+        for known in (True, False):
+            if ln == 0:
+                p = b''
+            else:
+                fc = r.choice(KNOWN_FC) if known else gen_unknown_fc(r)
+                while not known and fc in KNOWN_FC:
+                    fc = gen_unknown_fc(r)
+                body = rnd_bytes(r, ln - 1)
+                if known and fc in (15, 16) and ln >= 7 and r.random() < 0.7:
+                    # make the length the right one for some quantity
+                    data = ln - 6
+                    q = data * 8 - r.randrange(0, 8) if fc == 15 else data // 2
+                    body = be(r.randrange(0, 100)) + be(max(q, 0)) + [data] + body[5:]
+                p = bytes([fc] + body)
+            frames.append((ln, 1, p))
+        out.append(('tcp', (simple_unit(),), None, tuple(frames)))
+    return out
+
+
+def all_fc_cases():
+    """TCP: all 256 function code values with a well-formed 4-byte body, 8 per session"""
+    out = []
+    for base in range(0, 256, 8):
+        frames = tuple((base + i, 1, bytes([base + i, 0, 1, 0, 1])) for i in range(8))
+        out.append(('tcp', (simple_unit(),), None, frames))
+    return out
+
+
+def load_corpus(ctx, prop):
+    import glob
+    import json
+    import os
+    res = []
+    for p in sorted(glob.glob(os.path.join(vlib.ROOT, 'corpus', prop, '*.json'))):
+        for c in json.load(open(p))['cases']:
+            res.append(case_from_json(c))
+    return res
+
+
+def coverage(ctx, cases, impl, rule, extra_classes=None):
+    classes = frame_classes(cases)
+    classes['sessions:tcp'] = sum(1 for c in cases if c[0] == 'tcp')
+    classes['sessions:rtu'] = sum(1 for c in cases if c[0] == 'rtu')
+    classes['sessions:with-authorization'] = sum(1 for c in cases if c[2] is not None)
+    for k in range(4):
+        classes[f'sessions:units={k}'] = sum(1 for c in cases if len(c[1]) == k)
+    classes['frames'] = sum(len(c[3]) for c in cases)
+    classes['replies:exception'] = 0
+    classes['replies:silent'] = 0
+    classes['replies:normal'] = 0
+    for c, i in zip(cases, impl):
+        rep, _, _ = split3(i)
+        for x in rep:
+            if x == '-':
+                classes['replies:silent'] += 1
+            else:
+                b = bytes.fromhex(x)
+                fcb = b[7] if c[0] == 'tcp' else b[1]
+                classes['replies:exception' if fcb & 0x80 else 'replies:normal'] += 1
+    if extra_classes:
+        classes.update(extra_classes)
+    nontrivial = set(c for c in cases if any(classify(f[2]).startswith('valid') for f in c[3]))
+    ctx.coverage.update({
+        'evaluations': len(cases),
+        'distinct_nontrivial': len(nontrivial),
+        'rule': rule,
+        'samples': [{'case': to_line(c)[:400], 'impl': i[:400]} for c, i in list(zip(cases, impl))[:5]],
+        'input_classes': classes,
+        'exhaustive': False,
+    })
+    return classes
